@@ -1065,5 +1065,89 @@ pub fn run_stall(ctx: &Ctx) -> i32 {
             });
         }
     });
+    // the connection limit is reached exactly, a further peer connects and stays silent, the served ones leave:
+    // an observer arriving then must be served (a silent waiter must not hold up the accept loop)
+    if ctx.only_case.is_none() {
+        let mut outs: Vec<(bool, usize, usize, String)> = vec![];
+        std::thread::scope(|s| {
+            let hs: Vec<_> = [(false, 1usize), (false, 2), (true, 2), (true, 3)]
+                .into_iter()
+                .map(|(multi, limit)| {
+                    s.spawn(move || -> Option<(bool, usize, usize, String)> {
+                        let srv = Server::start(SrvCfg { idle_s: 60, item_limit: 1024, workers: if multi { Some(2) } else { None }, conn_limit: limit as u32, ..Default::default() }).ok()?;
+                        let mut served: Vec<Cli> = vec![];
+                        for i in 0..limit {
+                            let mut c = Cli::connect(srv.port).ok()?;
+                            let _ = ask(&mut c, &wire::simple(op::NOOP, 1 + i as u32))?;
+                            served.push(c);
+                        }
+                        // over the limit and silent
+                        let silent = Cli::connect_plain(srv.port).ok()?;
+                        std::thread::sleep(Duration::from_millis(150));
+                        drop(served);
+                        std::thread::sleep(Duration::from_millis(150));
+                        let mut answered = 0usize;
+                        let mut note = String::new();
+                        if limit >= 2 {
+                            // one slot for the silent peer, one for the observer
+                            if let Ok(mut obs) = Cli::connect_plain(srv.port) {
+                                for i in 0..3u32 {
+                                    use std::io::Write;
+                                    if obs.s.write_all(&wire::simple(op::NOOP, 200 + i).encode()).is_err() {
+                                        break;
+                                    }
+                                    let t1 = Instant::now();
+                                    let mut got = false;
+                                    while t1.elapsed() < Duration::from_secs(10) {
+                                        obs.read_frames(answered + 1, Duration::from_millis(100));
+                                        if parse_prefix(&obs.rx).iter().any(|r| r.opaque == 200 + i) {
+                                            got = true;
+                                            break;
+                                        }
+                                    }
+                                    if !got {
+                                        note = format!("noop #{} of an observer that connected after the served connections had left was not answered within 10 s", i);
+                                        break;
+                                    }
+                                    answered += 1;
+                                }
+                            }
+                        } else {
+                            // limit 1: the silent peer itself gets the slot; it must be served when it finally speaks
+                            let mut c = silent;
+                            use std::io::Write;
+                            let _ = c.s.write_all(&wire::simple(op::NOOP, 300).encode());
+                            c.read_frames(1, Duration::from_secs(10));
+                            if parse_prefix(&c.rx).iter().any(|r| r.opaque == 300) {
+                                answered = 3;
+                            } else {
+                                note = "the waiting peer was not served after the slot had freed".into();
+                            }
+                            return Some((multi, limit, answered, note));
+                        }
+                        drop(silent);
+                        Some((multi, limit, answered, note))
+                    })
+                })
+                .collect();
+            for h in hs {
+                if let Ok(Some(o)) = h.join() {
+                    outs.push(o);
+                }
+            }
+        });
+        let mut e = shared.lock().unwrap();
+        for (multi, limit, answered, note) in outs {
+            e.evaluations += 1;
+            e.count("stall:silent_waiter_scenarios", 1);
+            e.nontrivial.insert(fnv(format!("silent-waiter:{}:{}", multi, limit).as_bytes()));
+            if answered < 3 {
+                e.violation(
+                    Viol::new(&["C16", "C17"], "silent-waiter-blocks-accept", format!("connection limit {} on a {} server, reached exactly; one more peer connects and stays silent; the served connections leave: {}", limit, if multi { "2-worker" } else { "current-thread" }, note)),
+                    json!({"engine":"stall-silent-waiter","limit":limit,"multi_thread":multi,"answered":answered}),
+                );
+            }
+        }
+    }
     shared.into_inner().unwrap().finish()
 }
